@@ -376,16 +376,222 @@ def prop_boundaries(r):
 # sub-property 3: constants
 
 
+def _const_module(r, layout, shape, data):
+    """Module text for the pattern kinds: constant/global (+ subview) -> snax.layout_cast -> tagged consumer."""
+    elt = r["elt"]
+    sp = r.get("space")
+    lt = G.tsl_text(layout)
+    kind = r["kind"]
+    tile_t = G.mtype(shape, elt, None, sp)
+    dst_t = G.mtype(shape, elt, lt, sp)
+    use = f'    "test.op"(%c) {{"c12.tag" = 0 : i64}} : ({dst_t}) -> ()'
+    head = '  "func.func"() <{sym_name = "main", function_type = () -> ()}> ({\n  ^bb0():'
+    tail = '    "func.return"() : () -> ()\n  }) : () -> ()\n}'
+    if kind == "arith":
+        return "\n".join(["builtin.module {", head,
+                          f'    %k = "arith.constant"() <{{value = {G.dense_text(data, shape)} : {tile_t}}}> : () -> {tile_t}',
+                          f'    %c = "snax.layout_cast"(%k) : ({tile_t}) -> {dst_t}', use, tail]), shape, None
+    if kind == "global":
+        g = (f'  "memref.global"() <{{sym_name = "g", type = {G.mtype(shape, elt)}, initial_value = {G.dense_text(data, shape)} : '
+             f'tensor<{"x".join(map(str, shape))}xi{elt}>, sym_visibility = "private", constant, alignment = 64 : i64}}> : () -> ()')
+        return "\n".join(["builtin.module {", g, head,
+                          f'    %k = "memref.get_global"() <{{name = @g}}> : () -> {tile_t}',
+                          f'    %c = "snax.layout_cast"(%k) : ({tile_t}) -> {dst_t}', use, tail]), shape, None
+    # subview_global
+    mult = [max(1, m) for m in r["sub"]["mult"]]
+    mult = [mult[d % len(mult)] for d in range(len(shape))]
+    gshape = [n * m for n, m in zip(shape, mult)]
+    tile = [r["sub"]["tile"][d % len(r["sub"]["tile"])] % mult[d] for d in range(len(shape))]
+    offs = [t * n for t, n in zip(tile, shape)]
+    strides = [int(np.prod(gshape[d + 1:])) for d in range(len(shape))]
+    off = sum(o * s for o, s in zip(offs, strides))
+    big_t = G.mtype(gshape, elt, None, sp)
+    sv_t = G.mtype(shape, elt, f"strided<[{', '.join(map(str, strides))}], offset: {off}>", sp)
+    g = (f'  "memref.global"() <{{sym_name = "g", type = {G.mtype(gshape, elt)}, initial_value = {G.dense_text(data, gshape)} : '
+         f'tensor<{"x".join(map(str, gshape))}xi{elt}>, sym_visibility = "private", constant, alignment = 64 : i64}}> : () -> ()')
+    rank = len(shape)
+    return "\n".join(["builtin.module {", g, head,
+                      f'    %k = "memref.get_global"() <{{name = @g}}> : () -> {big_t}',
+                      f'    %s = "memref.subview"(%k) <{{operandSegmentSizes = array<i32: 1, 0, 0, 0>, static_offsets = array<i64: {", ".join(map(str, offs))}>, '
+                      f'static_sizes = array<i64: {", ".join(map(str, shape))}>, static_strides = array<i64: {", ".join(["1"] * rank)}>}}> : ({big_t}) -> {sv_t}',
+                      f'    %c = "snax.layout_cast"(%s) : ({sv_t}) -> {G.mtype(shape, elt, lt, sp)}',
+                      use, tail]), gshape, offs
+
+
 def prop_constants(r):
-    raise Outside("todo")
+    from xdsl.dialects import builtin as B
+
+    tb = [[max(1, int(x)) for x in bs] for bs in r["tb"]]
+    order = [tuple(p) for p in r["order"]]
+    pos = [(d, k) for d, bs in enumerate(tb) for k in range(len(bs))]
+    if sorted(order) != sorted(pos):
+        raise Outside("order is not a permutation of the stride positions")
+    layout = G.layout_from_order(tb, order)
+    if r.get("unit_step"):
+        for dim in layout["dims"]:
+            for st_ in dim:
+                if st_[1] == 1:
+                    st_[0] = int(r["unit_step"])
+    if not T.ref_dense(layout):
+        raise Outside("layout not dense (generator bug)")
+    shape = T.shape_of(layout)
+    elt = r["elt"]
+    kind = r["kind"]
+    rm = G.is_row_major(layout)
+    cls = [f"kind:{kind}", f"elt:{elt}", f"rank:{len(shape)}", f"strides:{len(pos)}", "row-major" if rm else "permuted"]
+    from snaxc.transforms.realize_memref_casts import transform_constant
+
+    if kind in ("direct_memref", "direct_tensor"):
+        n = int(np.prod(shape))
+        data = G.data_values(r.get("seed", 0), n, elt)
+        et = B.IntegerType(elt)
+        ty = B.MemRefType(et, shape) if kind == "direct_memref" else B.TensorType(et, shape)
+        src = B.DenseIntOrFPElementsAttr.from_list(ty, data)
+        attr = T.mk_attr(layout)
+        try:
+            with warnings.catch_warnings():
+                warnings.simplefilter("ignore")
+                new = transform_constant(src, attr)
+        except NotImplementedError as e:
+            raise Reject(f"transform_constant: NotImplementedError {str(e)[:60]}")
+        except Exception as e:
+            raise Violation(f"constants:transform_constant:raises:{type(e).__name__}", dict(layout=G.tsl_text(layout), shape=shape, error=str(e)[:200]))
+        if new is None:
+            return Info(nontrivial=False, classes=tuple(cls + ["not-transformed"]))
+        nt = new.type
+        if not isinstance(nt, B.MemRefType) or list(nt.get_shape()) != shape or nt.element_type != et or nt.layout != attr:
+            raise Violation("constants:transform_constant:result-type", dict(layout=G.tsl_text(layout), got=str(nt)))
+        vals = list(new.get_values())
+        logical, probs = M.decode_dense(vals, tuple(shape), layout)
+        if probs or logical != data:
+            bad = next((i for i, (a, c) in enumerate(zip(data, logical)) if a != c), None)
+            raise Violation("constants:transform_constant:value-at-layout-address-differs",
+                            dict(layout=G.tsl_text(layout), shape=shape, element=bad, expected=data[:16], decoded=logical[:16], stored=vals[:16], problems=probs))
+        return Info(nontrivial=not rm, classes=tuple(cls + ["transformed"]))
+
+    # pattern kinds: through the real pass, executed on the buffer machine before and after
+    if kind == "subview_global":
+        mult = [max(1, m) for m in r["sub"]["mult"]]
+        n = int(np.prod([s * mult[d % len(mult)] for d, s in enumerate(shape)]))
+    else:
+        n = int(np.prod(shape))
+    data = G.data_values(r.get("seed", 0), n, elt)
+    text, gshape, offs = _const_module(r, layout, shape, data)
+    with warnings.catch_warnings():
+        warnings.simplefilter("ignore")
+        orig = parse(text, shared_ctx())
+        orig.verify()
+        out = orig.clone()
+        try:
+            _run(out, "realize-memref-casts")
+        except PassCrash as e:
+            raise Violation(f"constants:{kind}:pass-raises:{type(e.exc).__name__}", dict(layout=G.tsl_text(layout), error=str(e)[:300], before=text))
+    shown = dict(before=text, after=to_text(out))
+    transformed = not any(op.name == "memref.copy" for op in out.walk())
+    terms = M.Terms()
+    ref = M.run(orig, "main", terms, [])
+    try:
+        res = M.run(out, "main", terms, [])
+    except InterpError as e:
+        raise Violation(f"constants:{kind}:output-not-executable", dict(error=str(e)[:200], **shown))
+    mis = [(s_, dict(problem=t_)) for s_, t_ in res.m.problems] + M.compare(terms, ref, res)
+    if mis:
+        raise Violation(f"constants:{kind}:{mis[0][0]}", dict(layout=G.tsl_text(layout), mismatch=mis[0][1], **shown))
+    if kind == "subview_global" and transformed:
+        # the tile layout the consumer was promised must be the global's new layout restricted to the tile (up to the base)
+        sv = next(op for op in out.walk() if op.name == "memref.subview")
+        try:
+            gl = M.tsl_recipe_of(sv.operands[0].type.layout)
+            tl = M.tsl_recipe_of(sv.results[0].type.layout)
+        except M.Unsupported as e:
+            raise Violation("constants:subview_global:layout-kind", dict(error=str(e), **shown))
+        if gl is None or tl is None:
+            raise Violation("constants:subview_global:layout-missing-after-transformation", shown)
+        base_g = T.addr(gl, offs)
+        base_t = T.addr(tl, [0] * len(shape))
+        for idx in np.ndindex(*shape):
+            if T.addr(gl, [o + i for o, i in zip(offs, idx)]) - base_g != T.addr(tl, idx) - base_t:
+                raise Violation("constants:subview_global:tile-layout-is-not-the-global-layout-restricted-to-the-tile",
+                                dict(index=[int(i) for i in idx], global_layout=G.tsl_text(gl), tile_layout=G.tsl_text(tl), **shown))
+    cls.append("transformed" if transformed else "copied")
+    return Info(nontrivial=transformed and not rm, classes=tuple(cls), sample=shown, evals=2)
 
 
 def prop_transpose(r):
-    raise Outside("todo")
+    from snaxc.transforms.frontend.remove_transpose_constants import RemoveTransposeConstants
+
+    d0, d1 = int(r["d0"]), int(r["d1"])
+    if d0 < 1 or d1 < 1:
+        raise Outside("empty shape")
+    data = G.data_values(r.get("seed", 0), d0 * d1, 32)
+    cls = [f"mode:{r['mode']}", "square" if d0 == d1 else "vector" if 1 in (d0, d1) else "rect"]
+    if r["mode"] == "direct":
+        try:
+            got = list(RemoveTransposeConstants().transpose_tuple(tuple(data), d0, d1))
+        except Exception as e:
+            raise Violation(f"transpose:transpose_tuple:raises:{type(e).__name__}", dict(shape=[d0, d1], error=str(e)[:200]))
+    else:
+        from xdsl.pattern_rewriter import PatternRewriteWalker
+
+        text = f"""builtin.module {{
+  %c = "arith.constant"() <{{value = {G.dense_text(data, [d0, d1])} : tensor<{d0}x{d1}xi32>}}> : () -> tensor<{d0}x{d1}xi32>
+  %e = "tensor.empty"() : () -> tensor<{d1}x{d0}xi32>
+  %t = "linalg.generic"(%c, %e) <{{indexing_maps = [affine_map<(d0, d1) -> (d1, d0)>, affine_map<(d0, d1) -> (d0, d1)>], iterator_types = [#linalg.iterator_type<parallel>, #linalg.iterator_type<parallel>], operandSegmentSizes = array<i32: 1, 1>}}> ({{
+  ^bb0(%a: i32, %b: i32):
+    "linalg.yield"(%a) : (i32) -> ()
+  }}) : (tensor<{d0}x{d1}xi32>, tensor<{d1}x{d0}xi32>) -> tensor<{d1}x{d0}xi32>
+  "test.op"(%t) : (tensor<{d1}x{d0}xi32>) -> ()
+}}"""
+        mod = parse(text, shared_ctx())
+        mod.verify()
+        try:
+            PatternRewriteWalker(RemoveTransposeConstants(), apply_recursively=False).rewrite_module(mod)
+            mod.verify()
+        except Exception as e:
+            raise Violation(f"transpose:pattern:raises:{type(e).__name__}", dict(shape=[d0, d1], error=str(e)[:200]))
+        use = next(op for op in mod.walk() if op.name == "test.op")
+        src = use.operands[0].owner
+        if getattr(src, "name", "") != "arith.constant":
+            return Info(nontrivial=False, classes=tuple(cls + ["not-folded"]))
+        if list(use.operands[0].type.get_shape()) != [d1, d0]:
+            raise Violation("transpose:pattern:result-shape", dict(shape=[d0, d1], got=str(use.operands[0].type)))
+        got = list(src.value.get_values())
+    want = [data[j * d1 + i] for i in range(d1) for j in range(d0)]  # out[i][j] = in[j][i], out is d1 x d0 row-major
+    if got != want:
+        bad = next((k for k, (a, c) in enumerate(zip(want, got)) if a != c), None)
+        raise Violation(f"transpose:{r['mode']}:element-differs", dict(shape=[d0, d1], position=bad, expected=want[:12], got=got[:12]))
+    return Info(nontrivial=d0 > 1 and d1 > 1, classes=tuple(cls))
+
+
+def transpose_exhaustive(tier):
+    for d0 in range(1, 13):
+        for d1 in range(1, 13):
+            for mode in ("direct", "pattern"):
+                yield dict(d0=d0, d1=d1, mode=mode, seed=d0 * 13 + d1)
+
+
+def _prog_no_const(tier):
+    """Programs for the boundary clause: dense arith.constant roots become initialised globals (clear-memory-space leaves the
+    type inside an arith.constant's value attribute alone and the module no longer verifies; that is a crash, not a boundary)."""
+    def fix(r):
+        for rt in r["roots"]:
+            if rt["kind"] == "const":
+                rt["kind"] = "glob"
+        return r
+
+    return G.program(tier).map(fix)
 
 
 SUBS = [
-    Sub("locality", lambda tier: G.program(tier), prop_locality, budget=dict(quick=800, thorough=20000)),
-    Sub("dataflow", lambda tier: G.program(tier), prop_dataflow, budget=dict(quick=2500, thorough=60000)),
-    Sub("boundaries", lambda tier: G.program(tier), prop_boundaries, budget=dict(quick=800, thorough=20000)),
+    Sub("locality", lambda tier: G.program(tier), prop_locality, budget=dict(quick=500, thorough=15000), floor=dict(quick=70, thorough=2000),
+        nontrivial_rule="at least one linalg.generic/dart.operation; explicit mode: chain >= 2 or cast read and written; implicit mode: >= 2 ops"),
+    Sub("dataflow", lambda tier: G.program(tier), prop_dataflow, budget=dict(quick=2000, thorough=60000), floor=dict(quick=250, thorough=8000),
+        nontrivial_rule="as locality, at least one tagged op executed, no mismatch of any kind in the case"),
+    Sub("constants", lambda tier: G.constant_case(tier), prop_constants, budget=dict(quick=2500, thorough=60000),
+        exhaustive=G.constant_exhaustive, floor=dict(quick=1500, thorough=10000),
+        nontrivial_rule="constant/global really re-laid-out (no copy left) and the target layout is not row-major"),
+    Sub("transpose", lambda tier: st.nothing(), prop_transpose, budget=dict(quick=0, thorough=0), exhaustive=transpose_exhaustive,
+        exhaustive_only=True, floor=dict(quick=200, thorough=200), nontrivial_rule="both dimensions > 1"),
+    Sub("boundaries", _prog_no_const, prop_boundaries, budget=dict(quick=500, thorough=15000), floor=dict(quick=80, thorough=2500),
+        nontrivial_rule="public function with at least one memref argument or result"),
 ]
